@@ -4,6 +4,7 @@ from __future__ import annotations
 
 import calendar
 from collections.abc import Awaitable, Callable, Coroutine
+from copy import copy
 from enum import IntEnum
 import time
 from typing import TYPE_CHECKING, Any
@@ -390,9 +391,11 @@ class OutgoingMessageHandler:
         """Process outgoing set messages."""
         node = gateway.nodes.get(message.node_id)
         if message_buffer and node and node.sleeping:
+            # Buffer the message as it is now. The caller may change the object
+            # and send it again, also while the buffer is being released.
             message_buffer.set_messages[
                 (message.node_id, message.child_id, message.message_type)
-            ] = message
+            ] = copy(message)
 
             return
 
